@@ -158,6 +158,8 @@ def key17(fixbits):
 
 def run():
     chk = vlib.Check("C17")
+    import shutil
+    shutil.rmtree(chk.replay_dir, ignore_errors=True)        # replay artefacts of earlier runs of this property
     scale = float(os.environ.get("VERIF_SCALE", "1"))
     with vlib.Scratch("c17") as sc:
         build = vlib.build_repo(sc.sub("build"))
@@ -213,5 +215,4 @@ def run():
 
 
 def replay(path):
-    print(open(path).read()[:6000])
-    return 0
+    return nc.replay(path, "C17")
